@@ -391,7 +391,7 @@ class MemNet:
         return self._fd
 
     def alloc_kfd(self):
-        k = 3
+        k = 2003      # (numbers no real descriptor of this process has: OS-level calls on them fail instead of touching real files)
         while k in self._kfds:
             k += 1
         self._kfds.add(k)
